@@ -583,7 +583,7 @@ def _iterdsl_programs(run, path, name, limit=None, seed=1, alt_sources=False):
             ps.add(hbody, "K:" + hexp, hrec, accept=haccept)
         # the same chain from the other source kinds (Sources of IterDsl.tla): chains of depth <= 1, every fifth deeper one
         if alt_sources and "srcs" in r and (len(r["chain"]) <= 1 or (k_line % 8 == 0 and len(r["chain"]) == 2)):
-            for kind in ("array", "iter_copied", "range", "range_incl", "chars", "repeat_take", "user_into", "user_iter"):
+            for kind in ("slice_ref", "array", "array_ref_ref", "iter_copied", "range", "range_incl", "chars", "repeat_take", "user_into", "user_iter"):
                 alt = gi.alt_source_case(r, kind)
                 if alt is None:
                     continue
